@@ -70,13 +70,32 @@ func vTranspilePkg(src string) (res string, err string) {
 		}
 		vFoiSrc = string(b)
 	}
+	// pkg_all.foi is parsed once; every call starts from a copy of the root scope it produced
+	// (the scope dictionaries are mutated in place by later definitions)
+	if vFoiScope == nil {
+		ps0 := initParse(vFoiSrc)
+		ps1, _ := parseAll(ps0)
+		vFoiScope = ps1.scope
+	}
 	resetUniqueTmpCounter()
-	ps := initParse(vFoiSrc)
-	ps2, _ := parseAll(ps)
-	ps3 := psSetNewSrc(src, ps2)
+	ps := initParse("")
+	sd := NewScopeDict()
+	for k, v := range vFoiScope.SDict.VarFacMap.Fdict {
+		sd.VarFacMap.Fdict[k] = v
+	}
+	for k, v := range vFoiScope.SDict.RecFacMap.Fdict {
+		sd.RecFacMap.Fdict[k] = v
+	}
+	for k, v := range vFoiScope.SDict.TypeFacMap.Fdict {
+		sd.TypeFacMap.Fdict[k] = v
+	}
+	ps.scope = NewScopeImpl0(sd)
+	ps3 := psSetNewSrc(src, ps)
 	_, stmts := parseAll(ps3)
 	return RootStmtsToGo(stmts), ""
 }
+
+var vFoiScope Scope
 
 func init() {
 	mode := os.Getenv("FC_VERIF")
@@ -120,6 +139,8 @@ func init() {
 		vC07(seed, count, extra)
 	case "c03":
 		vC03(seed, count, extra)
+	case "c02":
+		vC02(seed, count, extra)
 	case "transpile-stdin":
 		// one hex-encoded source per line -> "ok <hex go>" | "err <hex msg>"
 		sc := bufio.NewScanner(os.Stdin)
